@@ -36,6 +36,7 @@ class Cfg:
         self.closures = False
         self.classes = False
         self.exceptions = False
+        self.exc_fibers = False  # GE: workers that catch errors of their own while main waits on a channel
         self.returns = True
         self.hazards = set()  # hazard tags whose construct must not be generated
         for k, v in kw.items():
@@ -551,9 +552,28 @@ class GC(G):
                         iterable = ("call", ("group", ("lambda", [], ("expr", iterable))), [])
                 body.append(("for", item, iterable, inner))
                 lists.append((acc, n))
-            elif c < 66 and made:
+            elif c < 62 and made:
                 g, k = self.pick(made)
                 body.append(("print", ("call", ("var", g), [self.num_expr(1) for _ in range(k)])))
+            elif c < 66:
+                # a closure whose only mention of an outer variable sits in the index of a second or later trailer
+                # (rows[0][v], make()[v], box.items[v]): the resolver has to walk every trailer to see the capture
+                vs = self.visible(lambda v: v.kind == "num")
+                if vs:
+                    v = self.pick(vs)
+                    zero = ("bin", "*", ("var", v.name), ("num", 0.0))
+                    rows = ("list", [("list", [("num", 10.0), ("num", 20.0)])])
+                    form = self.i(0, 2)
+                    if form == 0:
+                        e = ("index", ("index", rows, ("num", 0.0)), zero)
+                    elif form == 1:
+                        e = ("index", ("call", ("group", ("lambda", [], ("expr", ("list", [("num", 5.0), ("num", 6.0)])))), []), zero)
+                    else:
+                        e = ("index", ("index", ("index", ("list", [rows]), ("num", 0.0)), ("num", 0.0)), zero)
+                    g = self.fresh("g")
+                    body.append(("let", g, ("lambda", [], ("expr", e))))
+                    self.declare(Var(g, "fn", False, params=[], ret="num"))
+                    made.append((g, 0))
             elif c < 74:
                 vs = self.visible(lambda v: v.kind == "num" and v.mutable)
                 if vs:
@@ -1044,10 +1064,20 @@ class GK(G):
                 else:
                     out.append(guarded(("print", ("call", ("prop", ov, "zz"), []))))
             elif c < 87:
-                st_ = [s for s in k.statics]
-                if st_:
-                    sname, n = self.pick(st_)
-                    out.append(("print", ("call", ("prop", ("var", k.name), sname), [self.expr("num", 1) for _ in range(n)])))
+                # a static is reached through its own class only: through a subclass (or the class of an instance of
+                # one) the name is undefined, and the builtin Class methods (name) are what the subclass answers with
+                anc = []
+                kk = k
+                while kk is not None:
+                    anc.append(kk)
+                    kk = kk.parent
+                owners = [a for a in anc if a.statics]
+                if owners:
+                    owner = self.pick(owners)
+                    sname, n = self.pick(owner.statics)
+                    via = ("var", k.name) if self.chance(70) else ("call", ("prop", ov, "cls"), [])
+                    call = ("print", ("call", ("prop", via, sname), [self.expr("num", 1) for _ in range(n)]))
+                    out.append(call if owner is k else guarded(call))
             elif c < 89:
                 out.append(("print", ("call", ("prop", ("call", ("prop", ov, "cls"), []), "name"), [])))
             elif c < 97 and any(self.has_poke(kk) for _, kk in objs):
@@ -1361,9 +1391,45 @@ class GE(G):
             return [self.callback_try_stmt()] + self.after_try()
         return G.stmt(self, depth)
 
+    def fiber_interlude(self):
+        """Module level: (optionally catch an error in main, then) launch a worker that catches an error of its own,
+        reports through a channel and ends, while main waits for the report. The fiber that caught must be able to
+        park on a channel and to complete like any other, and the worker's parameter and local keep their values."""
+        n = self.fresh("w")
+        ch, loc, ev = "ch_" + n, "loc_" + n, "e_" + n
+        c = self.i(0, 9)
+        if c < 5 or not self.raisers:
+            cls = self.err_class()
+            src = [("raise", ("call", ("var", cls), [("str", "in " + n)]))]
+        elif c < 8:
+            name, np_, cls = self.pick(self.raisers)
+            src = [("expr", ("call", ("var", name), [("num", 0.0) for _ in range(np_)]))]
+        else:
+            src, cls = [("expr", ("index", ("list", []), ("num", 3.0)))], "IndexError"
+        ccls = None if self.chance(40) else self.pick(self.ancestors(cls))
+        tr = ("try", src + [("print", ("str", "unreachable " + n))],
+              [(ev, ccls, [("print", ("interp", [n + " caught ", ("call", ("prop", ("call", ("prop", ("var", ev), "cls"), []), "name"), []),
+                                                 " ", ("var", loc)]))])])
+        send = ("expr", ("send", ("var", "c"), ("bin", "*", ("var", loc), ("num", 2.0))))
+        order = self.i(0, 2)
+        body = [("let", loc, ("bin", "+", ("var", "p"), ("num", 1.0)))]
+        body += [tr, send] if order == 0 else ([send, tr] if order == 1 else [tr, send, tr])
+        out = [("let", ch, ("chan", ("num", float(self.i(1, 3))))), ("fn", n, ["c", "p"], body)]
+        if self.chance(50):
+            mv = self.fresh("me")
+            out.append(("try", [("raise", ("call", ("var", "Error"), [("str", "main before " + n)]))],
+                        [(mv, None, [("print", ("prop", ("var", mv), "message"))])]))
+        out.append(("launch", ("call", ("var", n), [("var", ch), ("num", float(self.i(1, 9)))])))
+        out.append(("print", ("recv", ("var", ch))))
+        return out
+
     def scenario(self):
         out = self.prelude()
-        out.extend(self.stmts(self.i(2, 8), 3))
+        top = self.stmts(self.i(2, 8), 3)
+        if self.cfg.exc_fibers and self.chance(25):
+            cut = self.i(0, len(top))
+            top = top[:cut] + self.fiber_interlude() + top[cut:]
+        out.extend(top)
         if self.chance(50):
             # a last raise, caught at module level or not: whatever handler bookkeeping the tries above left behind
             # (a try left by break / continue / return) decides where it goes
